@@ -768,3 +768,33 @@ Proof.
   unfold subclassb, mro. destruct (lookup c (w_classes w)) as [[|c0 r]|]; try discriminate.
   apply andb_prop in Hm as [Hm _]. apply andb_prop in Hm as [_ Hm]. exact Hm.
 Qed.
+
+(* ------------------------------------------------------------------------------------------ *)
+(** * A subclass that overrides none of the registered names dispatches like its parent (every world) *)
+
+Lemma resolve_inherits w c c' m :
+  mro w c' = c' :: mro w c -> own w c' m = None -> resolve w c' m = resolve w c m.
+Proof. unfold resolve. intros -> H. simpl. now rewrite H. Qed.
+
+Lemma run_branch_inherits w b c c' f types n :
+  mro w c' = c' :: mro w c ->
+  (forall m, lookup f (table w (b_lookup b)) = Some m -> own w c' m = None) ->
+  run_branch w b c' f types n = run_branch w b c f types n.
+Proof.
+  intros Hm Ho. unfold run_branch.
+  destruct (_ || _); [reflexivity|].
+  destruct (lookup f (table w (b_lookup b))) as [m|] eqn:E; [|reflexivity].
+  now rewrite (resolve_inherits w c c' m Hm (Ho m eq_refl)).
+Qed.
+
+Lemma torch_function_inherits w c c' f types args :
+  mro w c' = c' :: mro w c ->
+  (forall t m, lookup f (table w t) = Some m -> own w c' m = None) ->
+  (forall a, nth_error args (tf_test_arg (w_tf w)) = Some a -> isinstance w a c' = isinstance w a c) ->
+  torch_function w c' f types args = torch_function w c f types args.
+Proof.
+  intros Hm Ho Hi. unfold torch_function.
+  destruct (nth_error args (tf_test_arg (w_tf w))) as [a|] eqn:E; [|reflexivity].
+  rewrite (Hi a eq_refl).
+  destruct (isinstance w a c); apply run_branch_inherits; auto; intros m; apply Ho.
+Qed.
